@@ -158,6 +158,14 @@ CHECKS = {
         "exhaustive": {"quick": False, "thorough": False},
         "trusted_base": ["the monitor's interface-use predicate over path metadata", "task emulation under ideal scheduling"],
     },
+    "C14": {
+        "engines": [
+            eng("native-release", "chk-stack", NATIVE_REL, params={"all": {"scale": 3}}),
+            eng("native-debugassert", "chk-stack", NATIVE_CHK, params={"all": {"scale": 1}}),
+        ],
+        "exhaustive": {"quick": False, "thorough": False},
+        "trusted_base": ["reference decoder, checksum, path reversal and SCMP layout table in harness/refscion/src/wire.rs"],
+    },
 }
 
 LEVEL = {p: "exploration" for p in CHECKS}
